@@ -7,6 +7,9 @@ CHECKS = {
    text="All interleavings (shared-access instruction granularity inside delayed_queue.py, early timer expiry) of producer/consumer/remover programs over the real DelayedQueue up to a deviation bound, every execution checked against the exactly-once/FIFO/not-early/close oracle. Right level: the property quantifies over schedules and gaps, which only exhaustive scheduling can cover.",
    note="trusted: wdmc.vsched virtual primitives mirror threading/time semantics; bounds: <=4 puts, deviation bound 1-3 as reported in evidence", ref="3 C17"),
 }
+CHECKS["C16"] = dict(cat="model_checking", tech="explicit-state BFS over put/get histories of the real EventQueue + stateless model checking (exhaustive deviation-bounded schedules) with a brute-force linearizability oracle + exhaustive pair enumeration for the equality law",
+   text="BFS over all put/get_nowait histories (3 items, 2 of them equal) on the real queue against a permissive sequential reference; all interleavings of up to 3 producers and a consumer up to a deviation bound, each checked for linearizability; all pairs of event objects for ==/hash. Right level: the property quantifies over sequences and interleavings.",
+   note="trusted: wdmc.vsched primitives and the re-executed stdlib queue.py; coalescing treated as optional (the statement permits, not demands, the drop)", ref="3 C16")
 NA = {}
 def main():
     checks = []
